@@ -218,6 +218,8 @@ def check_program(tag, plan, gout, mout, st, fails, have_model=True):
 SIG_SWITCH = 'goja-crash:switch-lexical-scope-made-dynamic'
 SIG_JUMP = 'dead-branch-break-continue-escapes-scope-block'
 SIG_PARAMS = 'strict-nonsimple-params-direct-eval'
+SIG_FINALLY = 'exception-in-finally-caught-by-own-catch'
+SIG_EVALFN = 'sloppy-eval-function-declaration-misses-eval-lexical-scope'
 BADKINDS = ('PANIC', 'SYNTAXERROR', 'ERROR', 'CRASH')
 
 
@@ -242,7 +244,11 @@ def pair_ok(harness, model, orig, var, strict, pl):
 
 
 def classify_failure(harness, model, seed, i, f):
-    """Attribute a failure to a known goja defect, if neutralising dead / no-op syntax makes it disappear."""
+    """Attribute a failure to known goja defects: it must disappear when the syntax that triggers them is
+    neutralised by semantics-preserving transformations (T: try/catch/finally -> nested try; J: break/continue
+    in statically dead branches -> empty; R: eval/with text, which only ever occurs in dead code -> nothing).
+    All subsets are tried, smallest first; the signature is that of the first transformation in the subset
+    (for R the structural pattern of the respective defect must be present as well)."""
     parts = f['id'].split('|')
     if len(parts) != 4:
         return None
@@ -250,22 +256,39 @@ def classify_failure(harness, model, seed, i, f):
     prog, var = regen_variant(seed, i, strict, name)
     if name == 'orig':
         var = prog
+
+    def apply(x, sub):
+        if 'T' in sub: x = G.split_try_catch_finally(x)
+        if 'J' in sub: x = G.neutralise(x, 'jump')
+        if 'R' in sub: x = G.neutralise(x, 'raw')
+        return x
+
+    def raw_sig():
+        if G.switch_lexical_dynamic(var) or G.switch_lexical_dynamic(prog):
+            return SIG_SWITCH
+        if strict and (G.nonsimple_params_with_raw(var) or G.nonsimple_params_with_raw(prog)):
+            return SIG_PARAMS
+        return None
     try:
         if pair_ok(harness, model, prog, var, strict, pl):
             return None                      # does not reproduce in isolation: leave it unclassified
-        j_o, j_v = G.neutralise(prog, 'jump'), G.neutralise(var, 'jump')
-        if (j_o != prog or j_v != var) and pair_ok(harness, model, j_o, j_v, strict, pl):
-            return SIG_JUMP
-        r_o, r_v = G.neutralise(prog, 'raw'), G.neutralise(var, 'raw')
-        if (r_o != prog or r_v != var) and pair_ok(harness, model, r_o, r_v, strict, pl):
-            if G.switch_lexical_dynamic(var) or G.switch_lexical_dynamic(prog):
-                return SIG_SWITCH
-            if strict and (G.nonsimple_params_with_raw(var) or G.nonsimple_params_with_raw(prog)):
-                return SIG_PARAMS
-            return None
-        b_o, b_v = G.neutralise(j_o, 'raw'), G.neutralise(j_v, 'raw')
-        if (j_o != prog or j_v != var) and pair_ok(harness, model, b_o, b_v, strict, pl):
-            return SIG_JUMP                  # both defects at once; the jump one is certainly involved
+        if pl == 'eval' and not strict and (G.toplevel_fdecl_and_lexical(var) or G.toplevel_fdecl_and_lexical(prog)) \
+                and pair_ok(harness, model, prog, var, strict, 'global') and pair_ok(harness, model, prog, var, True, 'eval'):
+            return SIG_EVALFN                # only the sloppy direct-eval placement fails, and the pattern is present
+        changed = {k: (apply(prog, k) != prog or apply(var, k) != var) for k in 'TJR'}
+        for sub in ('T', 'J', 'R', 'TJ', 'TR', 'JR', 'TJR'):
+            if not all(changed[k] for k in sub):
+                continue
+            if 'R' in sub and raw_sig() is None:
+                continue
+            if pair_ok(harness, model, apply(prog, sub), apply(var, sub), strict, pl):
+                return {'T': SIG_FINALLY, 'J': SIG_JUMP, 'R': raw_sig()}[sub[0]]
+        # sloppy direct-eval defect combined with others: with every other trigger neutralised the sloppy eval
+        # placement still fails, while global placement and strict eval pass
+        if pl == 'eval' and not strict and (G.toplevel_fdecl_and_lexical(var) or G.toplevel_fdecl_and_lexical(prog)):
+            np_, nv_ = apply(prog, 'TJR'), apply(var, 'TJR')
+            if pair_ok(harness, model, np_, nv_, False, 'global') and pair_ok(harness, model, np_, nv_, True, 'eval'):
+                return SIG_EVALFN
     except Exception:
         return None
     return None
@@ -274,7 +297,7 @@ def classify_failure(harness, model, seed, i, f):
 def new_stats():
     return {'goja_runs': 0, 'compared': 0, 'metamorphic': 0, 'model_variant': 0, 'lean_rw': 0, 'lean_rw_changed': 0, 'goja_kind': {},
             'model_kind': {}, 'rw_applied': {}, 'dump_changed': {}, 'ins_shift': {}, 'programs': 0, 'nontriv': [],
-            'src_len': 0, 'samples': []}
+            'src_len': 0, 'samples': [], 'cut_short': 0}
 
 
 def merge_stats(a, b):
@@ -294,10 +317,13 @@ def merge_stats(a, b):
 
 
 def work(args):
-    seed, start, count, harness, model, size = args
+    seed, start, count, harness, model, size, deadline = args
     st, fails = new_stats(), []
-    batch = 40
+    batch = 10
     for b0 in range(start, start + count, batch):
+        if deadline and time.time() > deadline:
+            st['cut_short'] = st.get('cut_short', 0) + 1
+            break
         greq, mlines, plans = [], [], {}
         progs = {}
         for i in range(b0, min(b0 + batch, start + count)):
@@ -320,12 +346,17 @@ def work(args):
             cache = {}
             for f in fails[n0:]:
                 f['seed_index'] = int(tag[1:])
+                f['seed'] = seed
                 if f['kind'] in ('model-vs-goja', 'variant-vs-original', 'goja-panic', 'goja-crash', 'goja-syntaxerror', 'goja-error') and 'id' in f:
-                    if f['id'] not in cache and len(cache) < 8:
+                    if f['id'] not in cache and len(cache) < 24:
                         cache[f['id']] = classify_failure(harness, model, seed, int(tag[1:]), f)
                     f['sig'] = cache.get(f['id'])
-                    if f['sig'] is None and cache and all(v is not None for v in cache.values()) and len(cache) >= 8:
-                        f['sig'] = 'unclassified-overflow'
+                    if f['id'] not in cache and len(cache) >= 24 and all(v is not None for v in cache.values()):
+                        # more than 24 failing cases of ONE base program, the first 24 all verified to stem from
+                        # known defects: the remaining cases of this program inherit the most frequent signature
+                        vals = list(cache.values())
+                        f['sig'] = max(set(vals), key=vals.count)
+                        f['sig_inherited'] = True
                     f['src'] = placement_src(regen_variant(seed, int(tag[1:]), f['id'].split('|')[1] == '1', f['id'].split('|')[2])[1], f['id'].split('|')[3])[:4000] if f.get('sig') else None
             o = gout.get('%s|1|orig|global' % tag)
             if o is not None and o['out'] not in ('timeout',):
@@ -457,10 +488,10 @@ def main(ctx):
     if ctx.broken and ctx.tier == 'quick':
         nprog *= 3          # something no longer checks: raise the search budget
     ncpu = max(1, min(16, (os.cpu_count() or 2)) - 1)
-    per = (nprog + ncpu * 4 - 1) // (ncpu * 4)
-    jobs = [(ctx.seed, s, min(per, nprog - s), harness, model, 1.0) for s in range(0, nprog, per)]
-    st, fails = new_stats(), []
+    per = 10 if ctx.tier == 'quick' else 50
     deadline = time.time() + (55 if ctx.tier == 'quick' else 720)
+    jobs = [(ctx.seed, s, min(per, nprog - s), harness, model, 1.0, deadline) for s in range(0, nprog, per)]
+    st, fails = new_stats(), []
     with Pool(ncpu) as pool:
         for (s1, f1) in pool.imap_unordered(work, jobs):
             merge_stats(st, s1)
